@@ -1177,6 +1177,7 @@ def install(E):
 
     def m_hasattr(E, args, kw):
         obj, name = args
+        name = const_name(name)
         if not isinstance(name, I.C) and not E.merge:
             hook = getattr(E, 'hasattr_symbolic', None)
             if hook is None:
@@ -1215,7 +1216,16 @@ def install(E):
             raise
     M[hasattr] = m_hasattr
 
+    def const_name(sv):
+        """a symbolic name that is in fact a literal string -> concrete"""
+        if isinstance(sv, I.T):
+            t = z3.simplify(sv.t)
+            if z3.is_app(t) and t.decl().name() == 'VStr' and vals.is_strlit(t.arg(0)):
+                return I.C(vals.strlit_text(t.arg(0)))
+        return sv
+
     def m_getattr(E, args, kw):
+        args = [args[0], const_name(args[1])] + list(args[2:])
         obj, name = args[0], args[1]
         if not isinstance(name, I.C):
             hook = getattr(E, 'getattr_symbolic_name', None)
@@ -1234,6 +1244,7 @@ def install(E):
 
     def m_setattr(E, args, kw):
         obj, name, v = args
+        name = const_name(name)
         if not isinstance(name, I.C):
             hook = getattr(E, 'setattr_symbolic_name', None)
             if hook is None:
